@@ -16,6 +16,7 @@ mod timestamps;
 mod summary;
 mod languages;
 mod codepages;
+mod faults;
 
 use std::collections::HashMap;
 
@@ -70,6 +71,7 @@ fn main() {
         "summary" => summary::main(&args),
         "languages" => languages::main(&args),
         "codepages" => codepages::main(&args),
+        "faults" => faults::main(&args),
         "summary-random" => summary::random_main(&args),
         "repr" => {
             // representability facts (reference encoder) for the characters the bounded models use
